@@ -72,13 +72,14 @@ def time0():
     # from 1972-07 on: before 1972 UTC had a variable rate against TAI ("rubber seconds"), where astropy's UTC<->TAI
     # round trip is only good to ~1e-9 s -- outside what any property here is about
     gen = st.tuples(st.integers(41500, 70000), st.floats(0.0, 1.0, exclude_max=True, allow_nan=False))
-    return st.one_of(leap, gen, gen).map(lambda t: {"mjd": t[0], "frac": t[1]})
+    scale = st.sampled_from(["utc"] * 5 + ["tai", "tt"])
+    return st.tuples(st.one_of(leap, gen, gen), scale).map(lambda t: {"mjd": t[0][0], "frac": t[0][1], "scale": t[1]})
 
 
 def mk_time(spec):
     if spec is None:
         return None
-    return Time(spec["mjd"], spec["frac"], format="mjd", scale="utc")
+    return Time(spec["mjd"], spec["frac"], format="mjd", scale=spec.get("scale", "utc"))
 
 
 def metas():
